@@ -47,3 +47,8 @@ Definition unit_days (u : unit_t) : Q := match time_units_gen u with Some q => q
 (* in-place forms (TimePar.__iadd__ / __isub__): the operand is added to v, in the parameter's OWN unit *)
 Definition tp_iadd (p : timepar) (x : Q) := tp_set_v p (tp_v p + x).
 Definition tp_isub (p : timepar) (x : Q) := tp_set_v p (tp_v p - x).
+
+(* ---- crude rates reported by the demographics modules (Births.update_results, Deaths.finalize, Pregnancy.finalize): the events counted in one step
+   of the module, per person alive, per rate unit, divided by a step length in years.  The code divides by the SIM's step (sim.t.dt_year). *)
+Definition crude_rate (count alive rate_units dt_year : Q) : Q := count / alive / (rate_units * dt_year).
+Definition crude_rate_reported (count alive rate_units sim_dt_year module_dt_year : Q) : Q := crude_rate count alive rate_units sim_dt_year.
